@@ -174,3 +174,103 @@ Proof.
   destruct la; [discriminate|]. destruct (tr_body A (shape_of A (FNorm A a n)) (fb A r)) as [[bd m]|]; [|discriminate]. injection Et as <-. cbn [t_fut]. now left.
 Qed.
 End P.
+(* ---------------- the future predicates are emitted in sorted order, once each, whatever the order of the statements ---------------- *)
+From Coq Require Import Permutation Sorting.Sorted.
+Section Order.
+Variable A : Type.
+Variable leA : A -> A -> bool.
+Hypothesis leA_total : forall a b, leA a b = true \/ leA b a = true.
+Hypothesis leA_trans : forall a b c, leA a b = true -> leA b c = true -> leA a c = true.
+Hypothesis leA_antisym : forall a b, leA a b = true -> leA b a = true -> a = b.
+Notation le_fut := (le_fut A leA).
+Notation eq_fut := (eq_fut A leA).
+Notation insert_fut := (insert_fut A leA).
+Lemma leA_refl' a : leA a a = true.  Proof. destruct (leA_total a a); assumption. Qed.
+Lemma le_fut_total x y : le_fut x y = true \/ le_fut y x = true.
+Proof.
+  unfold FutTransform.le_fut. destruct (leA (fst x) (fst y)) eqn:E1, (leA (fst y) (fst x)) eqn:E2; auto.
+  - destruct (Nat.leb_spec (snd x) (snd y)); [now left|right; apply Nat.leb_le; lia].
+  - destruct (leA_total (fst x) (fst y)); congruence.
+Qed.
+Lemma le_fut_spec x y : le_fut x y = true <-> leA (fst x) (fst y) = true /\ (leA (fst y) (fst x) = true -> snd x <= snd y).
+Proof.
+  unfold FutTransform.le_fut. destruct (leA (fst x) (fst y)) eqn:E1; [|split; [discriminate|intros [X _]; discriminate X]].
+  destruct (leA (fst y) (fst x)) eqn:E2.
+  - rewrite Nat.leb_le. split; [intros H; split; [reflexivity|intros _; exact H]|intros [_ H]; now apply H].
+  - split; [intros _; split; [reflexivity|discriminate]|reflexivity].
+Qed.
+Lemma le_fut_trans x y z : le_fut x y = true -> le_fut y z = true -> le_fut x z = true.
+Proof.
+  rewrite !le_fut_spec. intros [A1 B1] [A2 B2]. split; [exact (leA_trans _ _ _ A1 A2)|]. intros Azx.
+  assert (leA (fst y) (fst x) = true) as Ayx by exact (leA_trans _ _ _ A2 Azx). assert (leA (fst z) (fst y) = true) as Azy by exact (leA_trans _ _ _ Azx A1).
+  specialize (B1 Ayx). specialize (B2 Azy). lia.
+Qed.
+Lemma eq_fut_eq x y : eq_fut x y = true -> x = y.
+Proof.
+  unfold FutTransform.eq_fut, FutTransform.le_fut. destruct x as [a n], y as [b m]. cbn [fst snd].
+  destruct (leA a b) eqn:E1, (leA b a) eqn:E2; cbn; try discriminate. intros H. apply andb_true_iff in H as [H1 H2]. apply Nat.leb_le in H1, H2.
+  rewrite (leA_antisym a b E1 E2). f_equal. lia.
+Qed.
+Definition lt_fut (x y : A * nat) : Prop := le_fut x y = true /\ x <> y.
+Lemma insert_fut_in x l z : In z (insert_fut x l) <-> z = x \/ In z l.
+Proof.
+  induction l as [|y l IH]; cbn [FutTransform.insert_fut In]; [intuition|].
+  destruct (eq_fut x y) eqn:E; [apply eq_fut_eq in E; subst; cbn [In]; intuition|]. destruct (le_fut x y); cbn [In]; [intuition|]. rewrite IH. intuition.
+Qed.
+Lemma insert_fut_sorted x l : StronglySorted lt_fut l -> StronglySorted lt_fut (insert_fut x l).
+Proof.
+  induction 1 as [|y r S IH F]; cbn [FutTransform.insert_fut]; [repeat constructor|].
+  destruct (eq_fut x y) eqn:E; [now constructor|]. destruct (le_fut x y) eqn:L.
+  - constructor; [now constructor|]. assert (lt_fut x y) as Lxy by (split; [exact L|intros ->; unfold FutTransform.eq_fut in E; rewrite L in E; discriminate]).
+    constructor; [exact Lxy|]. eapply Forall_impl; [|exact F]. intros z [Lz Nz]. split; [exact (le_fut_trans _ _ _ L Lz)|].
+    intros ->. destruct Lxy as [_ N]. apply N. apply eq_fut_eq. unfold FutTransform.eq_fut. now rewrite L, Lz.
+  - constructor; [exact IH|]. apply Forall_forall. intros z Hz. apply insert_fut_in in Hz as [->|Hz]; [|exact (proj1 (Forall_forall _ _) F z Hz)].
+    destruct (le_fut_total x y) as [X|X]; [congruence|]. split; [exact X|]. intros ->. unfold FutTransform.eq_fut in E. rewrite X in E. discriminate.
+Qed.
+Lemma fold_insert_in xs : forall l z, In z (fold_left (fun l x => insert_fut x l) xs l) <-> In z xs \/ In z l.
+Proof. induction xs as [|x xs IH]; intros l z; cbn [fold_left In]; [intuition|]. rewrite IH, insert_fut_in. intuition. Qed.
+Lemma fold_insert_sorted xs : forall l, StronglySorted lt_fut l -> StronglySorted lt_fut (fold_left (fun l x => insert_fut x l) xs l).
+Proof. induction xs as [|x xs IH]; intros l S; cbn [fold_left]; [exact S|]. apply IH. now apply insert_fut_sorted. Qed.
+Definition futs_of (P : list (frule A)) (z : A * nat) : Prop := exists r t, In r P /\ transform_rule A r = Some t /\ In z (t_fut A t).
+Lemma fold_step_bridge_exact P : forall acc o, fold_left (step A leA) P (Some acc) = Some o -> StronglySorted lt_fut (o_bridge A acc) ->
+  StronglySorted lt_fut (o_bridge A o) /\ forall z, In z (o_bridge A o) <-> futs_of P z \/ In z (o_bridge A acc).
+Proof.
+  induction P as [|r P IH]; intros acc o E S; cbn [fold_left] in E.
+  - injection E as <-. split; [exact S|]. intros z. split; [now right|]. intros [(r & t & [] & _)|H]; exact H.
+  - destruct (step A leA (Some acc) r) as [o1|] eqn:St; [|exfalso; clear -E; induction P as [|r' P IHP]; cbn [fold_left] in E; [discriminate|now apply IHP]].
+    assert (exists t, transform_rule A r = Some t /\ o_bridge A o1 = fold_left (fun l x => insert_fut x l) (t_fut A t) (o_bridge A acc)) as (t & Et & Eb).
+    { unfold step in St. destruct (transform_rule A r) as [t|]; [|discriminate]. exists t. split; [reflexivity|].
+      destruct (lookahead_part_gen (Z.of_nat (t_shift A t)) (is_final (fp A r))) as [[|]|]; try discriminate; injection St as <-; reflexivity. }
+    destruct (IH o1 o E) as [S' In']; [rewrite Eb; now apply fold_insert_sorted|]. split; [exact S'|]. intros z. rewrite In', Eb, fold_insert_in. split.
+    + intros [(r' & t' & I' & Et' & Iz)|[Iz|Iz]]; [left; exists r', t'; split; [now right|auto]|left; exists r, t; split; [now left|auto]|now right].
+    + intros [(r' & t' & [<-|I'] & Et' & Iz)|Iz]; [right; left; congruence|left; exists r', t'; auto|right; now right].
+Qed.
+Lemma sorted_same_elements : forall l l', StronglySorted lt_fut l -> StronglySorted lt_fut l' -> (forall z, In z l <-> In z l') -> l = l'.
+Proof.
+  induction l as [|x r IH]; intros l' S S' E.
+  - destruct l' as [|y r']; [reflexivity|]. exfalso. apply (proj2 (E y)). now left.
+  - destruct l' as [|y r']; [exfalso; apply (proj1 (E x)); now left|].
+    inversion S as [|? ? Sr Fr]; subst. inversion S' as [|? ? Sr' Fr']; subst.
+    assert (x = y) as ->.
+    { destruct (proj1 (E x) (or_introl eq_refl)) as [->|Hx]; [reflexivity|]. destruct (proj2 (E y) (or_introl eq_refl)) as [->|Hy]; [reflexivity|].
+      destruct (proj1 (Forall_forall _ _) Fr y Hy) as [L1 N1]. destruct (proj1 (Forall_forall _ _) Fr' x Hx) as [L2 N2].
+      apply eq_fut_eq. unfold FutTransform.eq_fut. now rewrite L1, L2. }
+    f_equal. apply IH; try assumption. intros z. split; intros Hz.
+    + destruct (proj1 (E z) (or_intror Hz)) as [E1|H]; [|exact H]. subst z. destruct (proj1 (Forall_forall _ _) Fr y Hz) as [_ N]. contradiction.
+    + destruct (proj2 (E z) (or_intror Hz)) as [E1|H]; [|exact H]. subst z. destruct (proj1 (Forall_forall _ _) Fr' y Hz) as [_ N]. contradiction.
+Qed.
+(* the bridge rules / future signatures of an accepted program: strictly sorted, exactly the future predicates of its rule heads *)
+Theorem bridges_sorted_and_exact (P : list (frule A)) o : transform_program A leA P = Some o ->
+  StronglySorted lt_fut (o_bridge A o) /\ forall z, In z (o_bridge A o) <-> futs_of P z.
+Proof.
+  unfold transform_program. destruct (fold_left (step A leA) P (Some (empty A))) as [o0|] eqn:F; [|discriminate]. intros E. injection E as <-. cbn [o_bridge].
+  destruct (fold_step_bridge_exact P (empty A) o0 F) as [S I]; [constructor|]. split; [exact S|]. intros z. rewrite I. cbn. intuition.
+Qed.
+(* ... hence independent of the order (and of repetitions) of the statements *)
+Theorem bridges_order_independent (P Q : list (frule A)) o o' : (forall r, In r P <-> In r Q) ->
+  transform_program A leA P = Some o -> transform_program A leA Q = Some o' -> o_bridge A o = o_bridge A o'.
+Proof.
+  intros Same E E'. destruct (bridges_sorted_and_exact P o E) as [S I]. destruct (bridges_sorted_and_exact Q o' E') as [S' I'].
+  apply sorted_same_elements; try assumption. intros z. rewrite I, I'. unfold futs_of. split; intros (r & t & Ir & Et & Iz); exists r, t; (split; [now apply Same|auto]).
+Qed.
+End Order.
